@@ -12,7 +12,7 @@ BAR = " | "
 
 class C08(Check):
     prop = "C08"
-    required_theorems = ["addSeg_union", "addSeg_comm", "removeSeg_diff", "removeSeg_sound", "updateRegion_spec", "nested_forest_spec",
+    required_theorems = ["canon_preserves_inside", "canon_eq_same_denotation", "addSeg_union", "addSeg_comm", "removeSeg_diff", "removeSeg_sound", "updateRegion_spec", "nested_forest_spec",
                          "outside_window_inside", "updateRegion_window", "nth_weekday_correct", "nth_weekday_agrees_with_spec",
                          "weekday_next_correct", "isInTimeRange_calendar_days", "tz_hypotheses_satisfiable", "day_loop_covers",
                          "scriptFunc_spec", "dayMatches_single", "dayMatches_weekday", "dayMatches_date", "dayMatches_nthWeekday",
@@ -24,7 +24,8 @@ class C08(Check):
                   "interval for every list of non-empty segments, shared boundaries included (full statement since the repair of F-C08a, commit 9b846ed); for "
                   "every period state, update inputs, region and clear flag the model's observation of UpdateRegion satisfies the executable specification "
                   "(window covers the region, outside the window inside, inside the window (own+includes)-excludes resp. (own-excludes)+includes) with no "
-                  "hypothesis beyond non-empty segments; nested_forest_spec lifts this by mutual induction to include/exclude forests of any depth. "
+                  "hypothesis beyond non-empty segments; segment lists are compared in canonical form (canon_preserves_inside: equal canonical forms cover the same "
+                  "instants, so a differently split list is no difference while a different union is); nested_forest_spec lifts this by mutual induction to include/exclude forests of any depth. "
                   "Calendar layer (token-level core; the string reader is tied by correspondence): for every entry list, window and time-zone parameter with "
                   "23-46 h days, scriptFunc_spec - an instant lies in a returned segment iff a local day of the window matches an entry's day definition and "
                   "the instant lies in one of its ranges on that day; day_loop_covers - the loop visits exactly the local days of the window, once, in order; "
@@ -43,6 +44,8 @@ class C08(Check):
     ]
     assumptions = [
         "segment boundaries are integers (exact in binary64)",
+        "only the covered set of a segment list is property-relevant: implementation and model lists are compared after canonicalisation (empty dropped, sorted, "
+        "overlapping/touching merged), and each model step starts from the implementation's observed state",
         "included/excluded periods were updated before the period that refers to them (the harness updates leaves first)",
         "every stored and supplied segment has begin < end (ProcessTimeRanges skips empty ranges); the region satisfies begin <= end",
         "range boundaries are local times that exist exactly once; local midnight exists exactly once in the probed zones",
